@@ -76,8 +76,16 @@ theorem handleValidation_outcome (cfg : Cfg) (reqH : Header) (key : Str) (stored
         .revalidated _ _ _ _ h304 hcp rfl rfl (by simp only [respWith]; exact applyStatus_get _ _)
       split at h
       · cases h; exact ⟨key304, rfl, rfl⟩
-      · cases h with
-        | setEntry ok h1 => cases h1; exact ⟨key304, rfl, rfl⟩
+      · split at h
+        · -- the 304 changed Vary: stored anew, still the stored status and body, marked REVALIDATED
+          obtain ⟨tr1, tr2, htr, hc1, hs1, h2⟩ := storeResponse_run _ _ _ _ _ _ _ _ _ _ _ _ h
+          cases h2
+          subst htr
+          refine ⟨.revalidated _ _ _ _ h304 hcp rfl rfl (by simp only [respWith]; exact applyStatus_get _ _), ?_, ?_⟩
+          · simpa using hc1
+          · simpa using hs1
+        · cases h with
+          | setEntry ok h1 => cases h1; exact ⟨key304, rfl, rfl⟩
     · rename_i hn304
       split at h
       · rename_i hc
@@ -397,6 +405,16 @@ inductive WritesAfter (req : Req) (key : Str) (stored : Option Entry) : OriginAn
       (parseCC req.header).noStore = false → (parseCC r.header).noStore = false →
       en.resp.status = e.resp.status → en.resp.body = e.resp.body →
       WritesAfter req key stored (.resp r t1 b) [.setEntry e.id en ok]
+  /-- 304 (as above) that CHANGES the Vary field of the stored response: the stored response, with the
+      merged fields, same status and body, is stored anew like a full reply — under the identifier of what
+      it now varies on, with its reference in the index — instead of being written back under the old one -/
+  | restore (r : Resp) (t1 : Int) (b : Bool) (e : Entry) (merged : Resp) (post : List Step) : r.status = 304 → stored = some e →
+      clientPreconditionForwarded req.header e.resp.header = false →
+      (parseCC req.header).noStore = false → (parseCC r.header).noStore = false →
+      merged.status = e.resp.status → merged.body = e.resp.body →
+      joinWith [',', ' '] (Header.values merged.header sVary) ≠ joinWith [',', ' '] (Header.values e.resp.header sVary) →
+      StoreWrites merged true key post →
+      WritesAfter req key stored (.resp r t1 b) post
   /-- a storable full reply: entry (and, if that succeeded, index) -/
   | store (r : Resp) (t1 : Int) (b : Bool) (post : List Step) : r.status ≠ 304 →
       canStoreResponse r (parseCC req.header) (parseCC r.header) = true → StoreWrites r b key post →
@@ -446,8 +464,16 @@ theorem validation_writes (cfg : Cfg) (req : Req) (key : Str) (stored : Entry) (
       · cases h; exact .none _
       · rename_i hw
         simp only [Bool.or_eq_true, not_or, Bool.not_eq_true] at hw
-        cases h with
-        | setEntry ok h1 => cases h1; exact .freshen _ _ _ stored _ _ h304.1.2 rfl h304.2 hw.1.2 hw.2 rfl rfl
+        split at h
+        · rename_i hv
+          obtain ⟨t1', t2', ht, hsw, hk⟩ := storeResponse_trace _ _ _ _ _ _ _ _ _ _ _ _ h
+          cases hk
+          simp only [List.append_nil] at ht
+          subst ht
+          exact .restore _ _ _ stored (respWith stored.resp (updateStoredHeaders (Header.del stored.resp.header sAge) r.header)) _
+            h304.1.2 rfl h304.2 hw.1.2 hw.2 rfl rfl (by simpa [respWith] using hv) hsw
+        · cases h with
+          | setEntry ok h1 => cases h1; exact .freshen _ _ _ stored _ _ h304.1.2 rfl h304.2 hw.1.2 hw.2 rfl rfl
     · rename_i hn304
       split at h
       · cases h; exact .none _
